@@ -387,6 +387,12 @@ class _Functional(ast.NodeTransformer):
 
     def visit_Call(self, node):
         self.generic_visit(node)
+        # operator.methodcaller(NAME, *a)(obj)  ->  getattr(obj, NAME)(*a)
+        if isinstance(node.func, ast.Call) and ast.unparse(node.func.func) in ("methodcaller", "operator.methodcaller") and node.func.args \
+                and len(node.args) == 1 and not node.keywords:
+            mc = node.func
+            return ast.copy_location(ast.Call(func=ast.Call(func=ast.Name(id="getattr", ctx=ast.Load()), args=[node.args[0], mc.args[0]], keywords=[]),
+                                              args=list(mc.args[1:]), keywords=list(mc.keywords)), node)
         # operator.attrgetter("a")(x)  ->  x.a   (also with a conditional name)
         if isinstance(node.func, ast.Call) and ast.unparse(node.func.func) in ("attrgetter", "operator.attrgetter") and len(node.func.args) == 1 \
                 and len(node.args) == 1 and not node.keywords:
